@@ -601,6 +601,11 @@ mod proofs_s {
             }
         };
     }
+    // S1p/S2p pinned slot (broadcast)
+    h3!(s1p_send_single_pinned_n2, s_try_send_pinned, BCast<Pay>, 2, 2, SendKind::Single);
+    h3!(s2p_send_multi_pinned_n2, s_try_send_pinned, BCast<Pay>, 2, 2, SendKind::Multi);
+    h3!(s1p_send_single_pinned_n4, s_try_send_pinned, BCast<Pay>, 4, 2, SendKind::Single);
+    h3!(s2p_send_multi_pinned_n4, s_try_send_pinned, BCast<Pay>, 4, 2, SendKind::Multi);
     // S4 view (sole consumer)
     h3!(s4_view_bcast_n1, s_try_recv_view, BCast<Pay>, 1, 2, false);
     h3!(s4_view_bcast_n2, s_try_recv_view, BCast<Pay>, 2, 2, false);
